@@ -37,6 +37,8 @@ package fiber
 //   optional-slash-bucket  the route's first literal is exactly 3 bytes, ends in '/', the slash is optional (an optional
 //                          parameter or '*' follows) and the normalised request path is the literal without that slash
 //                          (2 bytes): dispatch answers 404 (and therefore also disagrees with RoutePatternMatch)
+//   trimmed-literal-search a literal of several bytes that follows a parameter ends in '/', and the path contains an additional
+//                          occurrence of that literal WITHOUT its trailing slashes (not of the literal itself): dispatch 404
 //   star-trailing-slash    pattern "/*/" without StrictRouting: the value reported for GET /a/ is "a/" instead of "a"
 //   rpm-trailing-slash     without StrictRouting and a request path that ends in '/': RoutePatternMatch does not cut the
 //                          trailing slashes of the path as dispatch does (it answers as dispatch for the cut path)
@@ -214,7 +216,7 @@ func fvcC03Fill(p fvcC03Pattern, vals []string) string {
 	return sb.String()
 }
 
-func fvcC03NoAdditional(p fvcC03Pattern, vals []string, caseSensitive bool) bool {
+func fvcC03NoAdditional(p fvcC03Pattern, vals []string, caseSensitive, trimmed bool) bool {
 	type span struct{ lo, hi int }
 	var spans []span
 	var sb strings.Builder
@@ -239,6 +241,9 @@ func fvcC03NoAdditional(p fvcC03Pattern, vals []string, caseSensitive bool) bool
 		lit := p.segs[i+1].lit
 		if !caseSensitive {
 			lit = fvcC03Lower(lit)
+		}
+		if trimmed && len(lit) > 1 {
+			lit = strings.TrimRight(lit, "/")
 		}
 		for q := 0; q+len(lit) <= len(path); q++ {
 			if path[q:q+len(lit)] != lit {
@@ -423,6 +428,7 @@ func (r *fvcC03Run) pattern(p fvcC03Pattern, c fvcC03Config, fillings [][]string
 	h := app.Handler()
 	fctx := &fasthttp.RequestCtx{}
 
+	trimmedOccurs := false // set per filling: the known finding trimmed-literal-search applies
 	request := func(path string, expect int, want []string, what string) {
 		if strings.HasPrefix(path, "//") {
 			return
@@ -442,6 +448,8 @@ func (r *fvcC03Run) pattern(p fvcC03Pattern, c fvcC03Config, fillings [][]string
 			if !matched || (body != wantBody && !fvcC03ExactFilling(p, path, c, body)) {
 				if !matched && fvcC03BucketFinding(p, path, c) {
 					r.known["optional-slash-bucket: Get(\"/a/:id?\") does not answer GET /a (404); Get(\"/ab/:id?\") answers GET /ab"]++
+				} else if !matched && trimmedOccurs {
+					r.known["trimmed-literal-search: Get(\"/*/ab/:x/a:y\") does not answer GET /-/ab/-/aB (404): the end of a parameter is searched with the following literal cut of its trailing slash (\"/ab\"), which the path contains a second time"]++
 				} else if matched && p.text == "/*/" && !c.strict && strings.HasSuffix(path, "/") {
 					r.known["star-trailing-slash: Get(\"/*/\") answers GET /a/ with Params(\"*\") == \"a/\" instead of \"a\" (no StrictRouting: the pattern is cut to \"/*\", whose value is the rest of the raw path)"]++
 				} else {
@@ -486,10 +494,11 @@ func (r *fvcC03Run) pattern(p fvcC03Pattern, c fvcC03Config, fillings [][]string
 			}
 			vi++
 		}
-		if !ok || !fvcC03NoAdditional(p, eff, c.cs) {
+		if !ok || !fvcC03NoAdditional(p, eff, c.cs, false) {
 			continue
 		}
 		raw := fvcC03Fill(p, vals)
+		trimmedOccurs = !fvcC03NoAdditional(p, eff, c.cs, true)
 		for _, v := range vals {
 			if v != "" {
 				r.distinct[p.text+"\x00"+strings.Join(vals, "\x00")] = true
